@@ -406,7 +406,9 @@ def factory_stage(rep):
     units = (0xF7, 0x7F, 0x11, 0x01)
     protos = [(kind, u, make_protocol(kind, 1, 0, False, unit=u)) for kind in ('udp', 'tcp') for u in units]
     calls = [('read', 0x891C, 4), ('read', 0x891C, 5), ('read', 47547, 6), ('write', 47510, 1234), ('write', 47510, -2),
-             ('multi', 47515, bytes(range(8))), ('multi', 47515, bytes(range(8, 16)))]
+             ('multi', 47515, bytes(range(8))), ('multi', 47515, bytes(range(8, 16)))] + \
+            [('multi', 47000, bytes((7 * i + 1) & 0xFF for i in range(ln))) for ln in (2, 4, 6, 12, 244, 246)] + \
+            [('read', 35100, c) for c in (1, 2, 124, 125)] + [('write', r, v) for r in (0, 65535) for v in (-32768, 0, 32767)]
     for rnd in range(2):
         order = protos if rnd == 0 else protos[::-1]
         for call in calls:
